@@ -396,6 +396,22 @@ func (c04) Run(c Case, env *Env) Result {
 					}
 				}
 			}
+			// the same MAP held by several nodes, one of them reachable from the map's own values
+			// (a back-reference to a map that is still being read)
+			if r.Intn(3) == 0 {
+				for k := 1 + r.Intn(3); k > 0; k-- {
+					a := nodes[r.Intn(n)]
+					if len(a.ByKey) == 0 {
+						a.ByKey = map[string]*zoo.GNode{"s": nodes[r.Intn(n)]}
+					}
+					for _, holder := range a.ByKey {
+						holder.ByKey = a.ByKey // holder is a value of the map it now holds
+						break
+					}
+					nodes[r.Intn(n)].ByKey = a.ByKey
+					gfeats = append(gfeats, "shared-bykey-map")
+				}
+			}
 			// a list longer than the decoder's preallocation bound, with a cycle through it
 			if j%16 == 5 {
 				long := make([]*zoo.GNode, 1100+r.Intn(200))
